@@ -287,6 +287,77 @@ func genBigPurge(r *hxlib.Run, emit func(hxlib.Case)) {
 	}
 }
 
+// genBoundary: records whose expiry time lies one or two seconds ahead (absolute, or relative through a TTL of one
+// second), deleted stamps at the same seconds, on all four backends and both delete modes in ONE case, so that
+// one wait serves them all: after `waitsec n` the wall clock shows exactly the second some expiry times name.
+// Within that second every database gets a block get*/query/maintenance-or-purge/get*/query bracketed by two
+// clock readings (see dbx.MonitorBoundary). Runs on the implementation only: the model's clock is logical.
+func genBoundary(r *hxlib.Run, emit func(hxlib.Case)) {
+	rng := r.Rng
+	type cf struct{ b, sh string }
+	var cfgs []cf
+	for _, b := range []string{"h", "b", "f", "g"} {
+		for _, sh := range []string{"0", "1"} {
+			cfgs = append(cfgs, cf{b, sh})
+		}
+	}
+	keys := []string{"bd/k0", "bd/k1", "bd/k2", "bd/k3", "bd/k4", "bd/k5"}
+	for c := 0; c < r.Budget(2, 15); c++ {
+		var lines []string
+		for i, x := range cfgs {
+			if i == 0 {
+				lines = append(lines, "cfg "+x.b+" "+x.sh, "if p 1 1 n 0 0 0 0")
+			} else {
+				lines = append(lines, "addcfg "+x.b+" "+x.sh)
+			}
+			for j, k := range keys {
+				exp := pick(r, []string{"@+1", "@+1", "@+2", "@+2", "@+0", "0"})
+				del := "0"
+				switch {
+				case j == 0:
+					exp = "@+1"
+				case j == 1:
+					exp = "@+2"
+				case j == 2 && rng.Intn(2) == 0:
+					exp, del = "0", "-1" // TTL of one second: Expires = time of the put + 1
+				case j == 5 && rng.Intn(2) == 0:
+					del = pick(r, []string{"@+1", "@+0", "@-5000"}) // stored deleted (shadow) / not stored (immediate)
+				}
+				lines = append(lines, fmt.Sprintf("put p %s J 0,0,%s,%s,0,0 S=s:v%d", k, exp, del, j))
+				r.Count("boundary:expires=" + exp + ",deleted=" + del)
+			}
+		}
+		for round := 1; round <= 2; round++ {
+			lines = append(lines, fmt.Sprintf("waitsec %d", round))
+			for _, x := range cfgs {
+				lines = append(lines, "usecfg "+x.b+" "+x.sh, "clock")
+				for _, k := range keys {
+					lines = append(lines, "get p "+k)
+				}
+				lines = append(lines, "query p bd/ -")
+				op := "maintain " + pick(r, []string{"@+0", "@+1", "@+2", "@+1", "@+3"})
+				// round 1: always maintenance (every database has a record expiring in that very second);
+				// round 2: maintenance or purge (bbolt; elsewhere purge answers not-implemented)
+				switch rng.Intn(6) {
+				case 0:
+					op = "gmaintain"
+				case 1, 2:
+					if round == 2 && (x.b == "b" || rng.Intn(6) == 0) {
+						op = "purge p bd/ -"
+					}
+				}
+				lines = append(lines, op)
+				r.Count("boundary:op:" + strings.Fields(op)[0])
+				for _, k := range keys {
+					lines = append(lines, "get p "+k)
+				}
+				lines = append(lines, "query p bd/ -", "clock")
+			}
+		}
+		emit(hxlib.Case{Lines: lines, NonTrivial: true, Kind: "expiry-boundary", NoModel: true})
+	}
+}
+
 func generate(r *hxlib.Run, emit0 func(hxlib.Case)) {
 	emit := func(c hxlib.Case) {
 		if !dbx.Hung() {
@@ -297,6 +368,7 @@ func generate(r *hxlib.Run, emit0 func(hxlib.Case)) {
 	regression(emit)
 	genIterator(r, emit)
 	genBigPurge(r, emit)
+	genBoundary(r, emit)
 	n := r.Budget(250, 3000)
 	for i := 0; i < n; i++ {
 		for _, backend := range []string{"h", "b", "f", "g"} {
@@ -318,6 +390,20 @@ func generate(r *hxlib.Run, emit0 func(hxlib.Case)) {
 
 // monitor: the property statement read literally (reference map in dbx.Oracle) on the implementation outputs.
 func monitor(c hxlib.Case, outs []string) (vs []hxlib.Violation) {
+	if dbx.IsBoundaryCase(c.Lines) {
+		skipLock.Lock()
+		bv := dbx.MonitorBoundary(c.Lines, outs, &boundary)
+		skipLock.Unlock()
+		seen := map[string]bool{}
+		for _, v := range bv {
+			if seen[v.Sig] {
+				continue
+			}
+			seen[v.Sig] = true
+			vs = append(vs, hxlib.Violation{Sig: v.Sig, What: fmt.Sprintf("op %d %q: %s", v.Idx, c.Lines[v.Idx], v.What), Lines: c.Lines, Output: outs})
+		}
+		return vs
+	}
 	o := dbx.NewOracle()
 	for i, l := range c.Lines {
 		o.Step(i, l, outs[i])
@@ -341,18 +427,20 @@ func monitor(c hxlib.Case, outs []string) (vs []hxlib.Violation) {
 var (
 	skips    = map[string]int{}
 	skipLock sync.Mutex
+	boundary dbx.BoundaryStats
 )
 
 func main() {
 	defer dbx.Cleanup()
 	hxlib.Main(&hxlib.Harness{
 		Prop:     "C02",
-		Rule: "a case is one history on one configuration (backend hashmap/bbolt/fstree/badger x shadow-delete x cache none/read(256)/read(2)/delayed(256)/delayed(2), interface options incl. Always* flags): 15-85 operations (put, put-new, get, exists, delete, absolute/relative expiry, flag setters, attribute insert, complete PutMany batches incl. an out-of-scope record, query and purge with random key prefixes and condition trees over all operators incl. ill-typed, sub-level and erroneous ones, maintenance with explicit and wall-clock threshold bracketed by raw storage dumps, flush/clear) over 10-15 keys sharing prefixes and path separators; records as typed struct, JSON wrapper (incl. missing and wrong-typed fields) and RAW wrapper, metadata with past/future absolute expiry, relative expiry, deletion stamps; plus regression cases for every repaired defect, iterator hand-over runs (free and with the producer held at the yield point in Finish), a real storage timeout, and purges of more than 1000 records on bbolt. Every case runs on the real database package and on the compiled Lean model; outputs are compared line by line; the monitor replays the case on an independent reference map. A case is non-trivial if it wrote and read; distinct by the hash of its lines.",
+		Rule: "a case is one history on one configuration (backend hashmap/bbolt/fstree/badger x shadow-delete x cache none/read(256)/read(2)/delayed(256)/delayed(2), interface options incl. Always* flags): 15-85 operations (put, put-new, get, exists, delete, absolute/relative expiry, flag setters, attribute insert, complete PutMany batches incl. an out-of-scope record, query and purge with random key prefixes and condition trees over all operators incl. ill-typed, sub-level and erroneous ones, maintenance with explicit and wall-clock threshold bracketed by raw storage dumps, flush/clear) over 10-15 keys sharing prefixes and path separators; records as typed struct, JSON wrapper (incl. missing and wrong-typed fields) and RAW wrapper, metadata with past/future absolute expiry, relative expiry, deletion stamps; plus regression cases for every repaired defect, iterator hand-over runs (free and with the producer held at the yield point in Finish), a real storage timeout, purges of more than 1000 records on bbolt, and clock-boundary cases (records on all four backends x both delete modes whose expiry time or deletion stamp lies one or two seconds ahead, absolute or through a TTL; the case waits for that second to begin and, within it, runs get*/query/maintenance-or-purge/get*/query per database between two clock readings; implementation only, judged when both readings are the same second: query = the keys get answers, maintenance changes no answer, purge counts and hides exactly those). Every other case runs on the real database package and on the compiled Lean model; outputs are compared line by line; the monitor replays the case on an independent reference map. A case is non-trivial if it wrote and read; distinct by the hash of its lines.",
 		Generate: generate,
 		NewExec:  func(*hxlib.Run) hxlib.Exec { return dbx.New(nil) },
 		Monitor:  monitor,
 		Extra: func(*hxlib.Run) map[string]any {
-			return map[string]any{"monitor_not_judged": skips}
+			return map[string]any{"monitor_not_judged": skips, "boundary_blocks": map[string]int{"judged": boundary.Judged,
+				"with_maintenance_or_purge": boundary.AtBoundary, "not_judged_second_changed_inside_block": boundary.CrossedSecond, "waitsec_late": boundary.Late}}
 		},
 		DisSig: func(line, impl, model string) string {
 			return "corr:" + strings.Fields(line)[0]
